@@ -9,6 +9,7 @@
 -/
 import AferoVerif.Proofs.Path
 import AferoVerif.Model.BasePathFs
+import AferoVerif.Generated.Facts
 namespace AferoVerif.C08
 open AferoVerif AferoVerif.Path
 
@@ -203,5 +204,22 @@ theorem bp_escape_inert (src : StepFn) (D : Str) (m : MemFs) (op : Op) (h : bpMa
     bpStep src D m op = (m, .err .notexist) := by
   unfold bpStep
   cases op <;> simp_all
+
+/-! ### tie to the source: which methods of basepath.go map which arguments through RealPath -/
+
+/-- the number of `RealPath` calls in every exported method of `BasePathFs`, as extracted from the
+    current basepath.go (harness/cmd/facts), is the number of name arguments the model maps through
+    `realPath` for that method (`opNames`) — no method of the code forgets an argument that the model
+    confines, and vice versa. (`Lstat`/`Readlink`/`Symlink` are not Fs methods of the model; their
+    counts are stated as they are: every name argument goes through RealPath.) -/
+theorem bp_methods_are_source : Generated.bpCalls =
+    [("Chmod", [(opNames (.chmod [] 0)).length]), ("Chown", [(opNames (.chown [] 0 0)).length]),
+     ("Chtimes", [(opNames (.chtimes [] 0)).length]), ("Create", [(opNames (.create [])).length]),
+     ("LstatIfPossible", [1]), ("Mkdir", [(opNames (.mkdir [] 0)).length]),
+     ("MkdirAll", [(opNames (.mkdirAll [] 0)).length]), ("Name", [0]), ("Open", [(opNames (.open_ [])).length]),
+     ("OpenFile", [(opNames (.openFile [] 0 0)).length]), ("ReadlinkIfPossible", [1]), ("RealPath", [0]),
+     ("Remove", [(opNames (.remove [])).length]), ("RemoveAll", [(opNames (.removeAll [])).length]),
+     ("Rename", [(opNames (.rename [] [])).length]), ("Stat", [(opNames (.stat [])).length]),
+     ("SymlinkIfPossible", [2])] := by decide
 
 end AferoVerif.C08
